@@ -38,20 +38,37 @@ def load_known():
     return json.load(open(path)).get("findings", [])
 
 
+SCRIPTS = {"hist": "histfam.py", "defn": "defnfam.py", "ctx": "ctxfam.py", "bind": "bindfam.py", "inv": "invfam.py", "call": "callfam.py"}
+
+
 def run_replay(prop, hints, out_path, unit=None):
-    fam = P.PROPS[prop].get("replay")
-    if fam is None:
+    """Search the replay families that can exhibit a failure of this unit / property for a concrete failing input."""
+    pf = P.PROPS[prop].get("replay")
+    if pf is None:
         return None
-    if unit in getattr(P, "DEFN_UNITS", ()) or fam == "defn":
-        fam = "defn"
-    script = "defnfam.py" if fam == "defn" else "ctxfam.py" if fam == "ctx" else "bindfam.py" if fam == "bind" else ("invfam.py" if (unit in P.INV_UNITS or fam == "inv") else "callfam.py")
+    fams = []
+    if unit in getattr(P, "META_UNITS", ()):
+        fams.append("hist")
+    if unit in getattr(P, "DEFN_UNITS", ()):
+        fams.append("defn")
+    if unit in P.INV_UNITS:
+        fams.append("inv")
+    for f in (pf, "call"):
+        if f not in fams:
+            fams.append(f)
     env = dict(os.environ, PYTHONPATH=REPO)
-    cmd = ["/venv/bin/python", os.path.join(HERE, "replay", script), "--search", "--hints", ",".join(hints), "--out", out_path]
-    try:
-        subprocess.run(cmd, env=env, cwd=os.path.join(HERE, "replay"), capture_output=True, text=True, timeout=300)
-        return json.load(open(out_path))
-    except Exception as e:  # the replay harness failing is never a verdict
-        return {"found": False, "harness_error": repr(e)}
+    last = None
+    for fam in fams[:3]:
+        cmd = ["/venv/bin/python", os.path.join(HERE, "replay", SCRIPTS[fam]), "--search", "--hints", ",".join(hints), "--out", out_path]
+        try:
+            subprocess.run(cmd, env=env, cwd=os.path.join(HERE, "replay"), capture_output=True, text=True, timeout=300)
+            last = json.load(open(out_path))
+            last["family"] = SCRIPTS[fam]
+            if last.get("found"):
+                return last
+        except Exception as e:  # the replay harness failing is never a verdict
+            last = {"found": False, "harness_error": repr(e), "family": SCRIPTS[fam]}
+    return last
 
 
 def main(argv):
@@ -131,7 +148,7 @@ def main(argv):
         statuses = {r["status"] for _, _, r in items}
         hints = next((h for pat, h in P.REPLAY_HINTS if pat in gname), []) + cfg.get("hints", [])
         uname = items[0][0].spec.name()
-        key = tuple(hints) + (uname in P.INV_UNITS, uname in P.DEFN_UNITS)
+        key = tuple(hints) + (uname in P.INV_UNITS, uname in P.DEFN_UNITS, uname in P.META_UNITS)
         if key not in replay_cache:
             h = hashlib.sha256((prop + gname).encode()).hexdigest()[:10]
             replay_cache[key] = (os.path.join("replays", "%s-%s.json" % (prop, h)), None)
@@ -146,7 +163,7 @@ def main(argv):
         doc = {"property": prop, "failed_obligation": o.name, "obligation_class": gname, "instances": len(items),
                "unit": rep.unit.describe(), "path": o.meta.get("path"), "solver": {k2: v for k2, v in r.items() if k2 != "model"},
                "goal": str(o.goal)[:3000], "replay": rres if rres is not None else {"found": False, "reason": "no replay family for this property"},
-               "how_to_replay": "PYTHONPATH=%s /venv/bin/python %s/replay/%s --scenario <this file>" % (REPO, HERE, "ctxfam.py" if cfg.get("replay") == "ctx" else "bindfam.py" if cfg.get("replay") == "bind" else ("invfam.py" if uname in P.INV_UNITS else "callfam.py"))}
+               "how_to_replay": "PYTHONPATH=%s /venv/bin/python %s/replay/%s --scenario <this file>" % (REPO, HERE, (rres or {}).get("family", "callfam.py"))}
         if reproduced:
             doc["program"] = rres.get("program")
         h = hashlib.sha256((prop + gname).encode()).hexdigest()[:10]
@@ -200,4 +217,13 @@ def main(argv):
 
 
 if __name__ == "__main__":
-    sys.exit(main(sys.argv[1:]))
+    try:
+        code = main(sys.argv[1:])
+    except SystemExit:
+        raise
+    except BaseException as e:  # a crash of the machinery is exit 3, never a verdict
+        import traceback
+        traceback.print_exc()
+        print("CHECKER-ERROR: %r" % (e,))
+        code = 3
+    sys.exit(code)
